@@ -114,6 +114,26 @@ def task(W, payload):
                 except BaseException as e:
                     fail(out, f"vectorised evaluation of {name} raised", "c16", payload, err=str(e)[:200])
     if payload.get("rolling"):
+        # long point sets (40 and 70 points: "any length"), evaluated at every point and half-way between neighbours
+        for n in (40, 70):
+            pts = [Fr(i, 2) + (Fr(1, 8) if i % 3 == 0 else Fr(0)) for i in range(n)]
+            ys = [Fr(r.randint(-8, 8), 2) for _ in range(n + 1)]
+            xs = sorted(set(pts + [p_ + Fr(1, 4) for p_ in pts] + [pts[0] - 1, pts[-1] + 1]))
+            fl = {"pw": (stf.get_piecewise_function(np.array([float(v) for v in pts]), np.array([float(v) for v in ys])), pts, ys),
+                  "lin": (stf.get_linear_interpolation_function(np.array([float(v) for v in pts]), np.array([float(v) for v in ys[:n]])), pts, ys[:n])}
+            for name, (f, a, b) in fl.items():
+                call = stf.get_time_callable(f, jit_compile=False)
+                vec = np.asarray(call(jnp.array([float(x) for x in xs]), {}))
+                for x, gv in zip(xs, vec):
+                    got = float(np.asarray(call(float(x), {})))
+                    ln = L.send({"op": "timefn", "fn": name, "x": q(x), "a": [q(v) for v in a], "b": [q(v) for v in b]})
+                    out["evals"] += 1
+                    if ln.get("ok") and not close(got, float(ln["v"]), 1.0, 1e-9):
+                        out["diffs"].append({"stage": "C16", "what": f"{name} value ({n} points)", "prescribed": True, "x": q(x), "impl": got, "model": float(ln["v"]),
+                                             "n_points": n, "task": {"module": "c16", "fn": "task", "payload": payload}})
+                    if not close(float(gv), got, 1.0, 1e-12):
+                        fail(out, f"vectorised evaluation of {name} differs from scalar evaluation ({n} points)", "c16", payload, x=q(x), n_points=n)
+                out["cases"].append(f"long:{name}:{n}")
         for _ in range(20):
             n = r.randint(1, 9)
             x = [Fr(r.randint(-20, 20), 4) for _ in range(n)]
